@@ -19,6 +19,12 @@ package main
 //	             cases in the source does not show; otherwise the order of the source is kept.
 //	calls        of a function held by a field or a local (`s.processor(…)`, `iter()`) are nodes `()(<the function>, args…)`;
 //	             append / make / len / cap are values; a call inside fmt.Errorf's arguments is a node.
+//	fields       of the structs of the four files are named by their type (io.Reader → r, *bufio.Scanner → s, Template → t,
+//	             io.Writer → w, Row → empty …): renaming a field changes nothing, storing into ANOTHER field does.
+//	hoisting     `g(x, f(y))`, f a helper of the four files with a body of several statements, is run as `tmp := f(y);
+//	             g(x, tmp)` with f inlined — only when nothing but plain values is evaluated before f(y).
+//	idiom        a helper `func(b []byte) []byte` that copies b into a fresh buffer of len(b)+1 and sets the last byte to a
+//	             constant c is the value append(b, c) (appendsOneByte: two spellings, anything else is not recognised).
 //	inlining     only functions of the four files (and not their New… constructors) are inlined; the constructors
 //	             of cells (`func NewValueX(v) Value { return &value{…} }`) are their literal.  Everything else
 //	             (CloneRow, NewRow, NewValue, NewTemplate …) is an opaque call `jsonline.<name>(args)`.
@@ -57,6 +63,11 @@ type flowX struct {
 	p         *pkgInfo
 	cellRoles map[string]string
 	loops     map[*vframe]*flowLoopCtx
+	hoisted   map[ast.Stmt][]ast.Stmt // statement -> the `tmp := f(…)` assignments taken out of it
+	markers   map[ast.Stmt]ast.Stmt   // marker -> the statement that follows it (its assignments are done)
+	pass      map[ast.Stmt]bool       // the statement was reached through its marker
+	nhoist    int
+	roleOf    map[string]map[string]string // struct type -> field name -> role (by the field's type)
 	done      map[ast.Stmt]bool
 	nextMark  *ast.BranchStmt
 }
@@ -90,8 +101,32 @@ func newFlowX(p *pkgInfo) *flowX {
 	x := newValX(p)
 	fx := &flowX{x: x, p: p, cellRoles: x.roles, loops: map[*vframe]*flowLoopCtx{}, done: map[ast.Stmt]bool{},
 		nextMark: &ast.BranchStmt{Tok: token.CONTINUE}}
-	x.wrapCalls, x.funcValues = true, true
+	x.wrapCalls, x.funcValues, x.loopBranches = true, true, true
 	x.stmtHook, x.callHook = fx.stmtHook, fx.callHook
+	fx.hoisted, fx.markers, fx.pass = map[ast.Stmt][]ast.Stmt{}, map[ast.Stmt]ast.Stmt{}, map[ast.Stmt]bool{}
+	fx.roleOf = map[string]map[string]string{}
+	flowCanon = fx.canonComposite
+	for _, f := range p.files {
+		if !flowFiles[fx.fileOf(f)] {
+			continue
+		}
+		for _, d := range f.Decls {
+			gd, ok := d.(*ast.GenDecl)
+			if !ok || gd.Tok != token.TYPE {
+				continue
+			}
+			for _, sp := range gd.Specs {
+				ts := sp.(*ast.TypeSpec)
+				obj, ok := p.pkg.Scope().Lookup(ts.Name.Name).(*types.TypeName)
+				if !ok {
+					continue
+				}
+				if stt, ok := obj.Type().Underlying().(*types.Struct); ok {
+					fx.roleOf[ts.Name.Name] = fx.fieldRoles(stt)
+				}
+			}
+		}
+	}
 	for key, fd := range x.funcs {
 		in := flowFiles[fx.fileOf(fd)]
 		switch {
@@ -423,8 +458,238 @@ func (fx *flowX) sortedSwitch(n *ast.TypeSwitchStmt) *ast.TypeSwitchStmt {
 	return &cp
 }
 
+// The fields of the structs of the four files are named by their TYPE (a field's name is free, what it holds is
+// not): `r io.Reader`, `reader io.Reader` … are all R.r.  Two fields of one type keep their names.
+var flowRoleByType = map[string]string{"io.Reader": "r", "*bufio.Scanner": "s", "Template": "t", "io.Writer": "w", "Row": "empty",
+	"Importer": "importer", "Exporter": "exporter", "Processor": "processor"}
+
+func (fx *flowX) fieldRoles(stt *types.Struct) map[string]string {
+	count := map[string]int{}
+	for i := 0; i < stt.NumFields(); i++ {
+		count[fx.x.typeStr(stt.Field(i).Type())]++
+	}
+	roles := map[string]string{}
+	for i := 0; i < stt.NumFields(); i++ {
+		f := stt.Field(i)
+		roles[f.Name()] = f.Name()
+		if r, ok := flowRoleByType[fx.x.typeStr(f.Type())]; ok && count[fx.x.typeStr(f.Type())] == 1 {
+			roles[f.Name()] = r
+		}
+	}
+	// a role must not be taken by another field's own name
+	seen := map[string]int{}
+	for _, r := range roles {
+		seen[r]++
+	}
+	for n, r := range roles {
+		if seen[r] > 1 {
+			roles[n] = n
+		}
+	}
+	return roles
+}
+
+// flowCanon rewrites the literal of a struct of the four files with its fields named by role (set by newFlowX).
+var flowCanon = func(s string) string { return s }
+
+func flowSplitTop(s string) []string {
+	var parts []string
+	depth, last := 0, 0
+	for i := 0; i < len(s); i++ {
+		switch s[i] {
+		case '(', '{', '[':
+			depth++
+		case ')', '}', ']':
+			depth--
+		case ',':
+			if depth == 0 {
+				parts = append(parts, s[last:i])
+				last = i + 1
+			}
+		}
+	}
+	return append(parts, s[last:])
+}
+
+var flowLitRe = regexp.MustCompile(`^&?(\w+)\{(.*)\}$`)
+
+func (fx *flowX) canonComposite(sym string) string {
+	m := flowLitRe.FindStringSubmatch(sym)
+	if m == nil || m[2] == "" {
+		return sym
+	}
+	roles, ok := fx.roleOf[m[1]]
+	if !ok {
+		return sym
+	}
+	vals := map[string]string{}
+	for _, kv := range flowSplitTop(m[2]) {
+		i := strings.Index(kv, "=")
+		if i < 0 {
+			return sym
+		}
+		k := kv[:i]
+		if r, ok := roles[k]; ok {
+			k = r
+		}
+		vals[k] = fx.canonComposite(kv[i+1:])
+	}
+	return sym[:strings.Index(sym, "{")] + "{" + fieldsText(vals) + "}"
+}
+
+// ---------------------------------------------------------------------------------------------------
+// hoisting: `g(x, f(y))` with f a function of the four files that has a body of several statements is run as
+// `tmp := f(y); g(x, tmp)` (f inlined), when nothing is evaluated before f(y) but f's own arguments and plain values.
+
+// hoistable finds the first such call of the statement and the slot that holds it.
+func (fx *flowX) hoistable(s ast.Stmt, st *vstate, fr *vframe) (call *ast.CallExpr, slot *ast.Expr) {
+	var direct ast.Expr // the call exec inlines by itself
+	var roots []*ast.Expr
+	switch n := s.(type) {
+	case *ast.ExprStmt:
+		direct = n.X
+		roots = append(roots, &n.X)
+	case *ast.AssignStmt:
+		if len(n.Rhs) == 1 {
+			direct = n.Rhs[0]
+		}
+		for _, l := range n.Lhs {
+			if _, ok := l.(*ast.Ident); !ok {
+				return nil, nil
+			}
+		}
+		for i := range n.Rhs {
+			roots = append(roots, &n.Rhs[i])
+		}
+	case *ast.ReturnStmt:
+		if len(n.Results) == 1 {
+			direct = n.Results[0]
+		}
+		for i := range n.Results {
+			roots = append(roots, &n.Results[i])
+		}
+	default:
+		return nil, nil
+	}
+	seen, depth, stop := 0, 0, false
+	var walk func(e *ast.Expr)
+	walk = func(e *ast.Expr) {
+		if stop || *e == nil {
+			return
+		}
+		switch n := (*e).(type) {
+		case *ast.CallExpr:
+			if tv, ok := fx.p.info.Types[n.Fun]; ok && tv.IsType() {
+				for i := range n.Args {
+					walk(&n.Args[i])
+				}
+				return
+			}
+			if *e != direct && seen == depth {
+				if _, fd := fx.x.inlinable(n, st, fr); fd != nil && countResults(fd) == 1 && !n.Ellipsis.IsValid() {
+					_, oneExpr := fd.Body.List[0].(*ast.ReturnStmt)
+					if !(len(fd.Body.List) == 1 && oneExpr && fd.Recv == nil) && fx.appendsOneByte(fd) == nil {
+						call, slot, stop = n, e, true
+						return
+					}
+				}
+			}
+			seen++
+			depth++
+			walk(&n.Fun)
+			for i := range n.Args {
+				walk(&n.Args[i])
+			}
+			depth--
+		case *ast.SelectorExpr:
+			walk(&n.X)
+		case *ast.ParenExpr:
+			walk(&n.X)
+		case *ast.UnaryExpr:
+			walk(&n.X)
+		case *ast.StarExpr:
+			walk(&n.X)
+		case *ast.TypeAssertExpr:
+			walk(&n.X)
+		case *ast.BinaryExpr:
+			if n.Op == token.LAND || n.Op == token.LOR {
+				walk(&n.X) // the right operand is not always evaluated
+				stop = true
+				return
+			}
+			walk(&n.X)
+			walk(&n.Y)
+		case *ast.IndexExpr:
+			walk(&n.X)
+			walk(&n.Index)
+		case *ast.KeyValueExpr:
+			walk(&n.Value)
+		case *ast.CompositeLit:
+			for i := range n.Elts {
+				walk(&n.Elts[i])
+			}
+		case *ast.Ident, *ast.BasicLit:
+		default:
+			stop = true
+		}
+	}
+	for _, r := range roots {
+		walk(r)
+	}
+	return call, slot
+}
+
+func (fx *flowX) hoist(s ast.Stmt, rest []ast.Stmt, st *vstate, fr *vframe) *vtree {
+	switch s.(type) {
+	case *ast.ExprStmt, *ast.AssignStmt, *ast.ReturnStmt:
+	default:
+		return nil
+	}
+	arrived := fx.pass[s]
+	delete(fx.pass, s)
+	var todo []ast.Stmt
+	if !arrived {
+		todo = append(todo, fx.hoisted[s]...)
+	}
+	for {
+		call, slot := fx.hoistable(s, st, fr)
+		if call == nil {
+			break
+		}
+		tv, ok := fx.p.info.Types[call]
+		if !ok || tv.Type == nil {
+			break
+		}
+		fx.nhoist++
+		name := fmt.Sprintf("hoisted%d", fx.nhoist)
+		obj := types.NewVar(call.Pos(), fx.p.pkg, name, tv.Type)
+		def, use := &ast.Ident{NamePos: call.Pos(), Name: name}, &ast.Ident{NamePos: call.Pos(), Name: name}
+		fx.p.info.Defs[def], fx.p.info.Uses[use] = obj, obj
+		*slot = use
+		a := &ast.AssignStmt{Lhs: []ast.Expr{def}, TokPos: call.Pos(), Tok: token.DEFINE, Rhs: []ast.Expr{call}}
+		fx.hoisted[s] = append(fx.hoisted[s], a)
+		todo = append(todo, a)
+	}
+	if len(todo) == 0 {
+		return nil
+	}
+	mark := &ast.EmptyStmt{Semicolon: s.Pos()}
+	fx.markers[mark] = s
+	return fx.x.exec(vconcat(append(todo, mark, s), rest), st, fr)
+}
+
 func (fx *flowX) stmtHook(s ast.Stmt, rest []ast.Stmt, st *vstate, fr *vframe) *vtree {
 	x := fx.x
+	if m, ok := s.(*ast.EmptyStmt); ok {
+		if target, ok := fx.markers[m]; ok {
+			fx.pass[target] = true
+			return x.exec(rest, st, fr)
+		}
+		return nil
+	}
+	if t := fx.hoist(s, rest, st, fr); t != nil {
+		return t
+	}
 	switch n := s.(type) {
 	case *ast.BranchStmt:
 		ctx := fx.loops[fr]
@@ -557,6 +822,78 @@ func (fx *flowX) opaque(fn string, args []string, n *ast.CallExpr, st *vstate, p
 	return rs, true, true
 }
 
+// appendsOneByte recognises the functions `func f(b []byte) []byte` whose value is b followed by one constant byte,
+// built in a fresh buffer — the bytes `append(b, c)` has:
+//
+//	line := make([]byte, len(b)+1); copy(line, b); line[len(b)] = c; return line
+//	line := make([]byte, 0, len(b)+1); line = append(line, b...); line = append(line, c)  [or: return append(line, c)]; return line
+//
+// and returns the expression c (nil when the body is anything else).
+func (fx *flowX) appendsOneByte(fd *ast.FuncDecl) ast.Expr {
+	if fd.Recv != nil || countResults(fd) != 1 || len(fd.Type.Params.List) != 1 || len(fd.Type.Params.List[0].Names) != 1 {
+		return nil
+	}
+	if fx.x.typeExprStr(fd.Type.Params.List[0].Type) != "[]byte" || fx.x.typeExprStr(fd.Type.Results.List[0].Type) != "[]byte" {
+		return nil
+	}
+	b := fd.Type.Params.List[0].Names[0].Name
+	body := fd.Body.List
+	if len(body) < 3 {
+		return nil
+	}
+	def, ok := body[0].(*ast.AssignStmt)
+	if !ok || def.Tok != token.DEFINE || len(def.Lhs) != 1 || len(def.Rhs) != 1 {
+		return nil
+	}
+	id, ok := def.Lhs[0].(*ast.Ident)
+	if !ok {
+		return nil
+	}
+	l := id.Name
+	txt := func(n ast.Node) string { return strings.ReplaceAll(fx.p.text(n), " ", "") }
+	last, isRet := body[len(body)-1].(*ast.ReturnStmt)
+	if !isRet || len(last.Results) != 1 {
+		return nil
+	}
+	switch txt(def.Rhs[0]) {
+	case "make([]byte,len(" + b + ")+1)":
+		if len(body) != 4 || txt(body[1]) != "copy("+l+","+b+")" || txt(last.Results[0]) != l {
+			return nil
+		}
+		set, ok := body[2].(*ast.AssignStmt)
+		if !ok || set.Tok != token.ASSIGN || len(set.Lhs) != 1 || len(set.Rhs) != 1 || txt(set.Lhs[0]) != l+"[len("+b+")]" {
+			return nil
+		}
+		return set.Rhs[0]
+	case "make([]byte,0,len(" + b + ")+1)":
+		if txt(body[1]) != l+"="+"append("+l+","+b+"...)" {
+			return nil
+		}
+		var app ast.Expr
+		switch {
+		case len(body) == 3:
+			app = last.Results[0]
+		case len(body) == 4 && txt(last.Results[0]) == l:
+			set, ok := body[2].(*ast.AssignStmt)
+			if !ok || set.Tok != token.ASSIGN || len(set.Lhs) != 1 || len(set.Rhs) != 1 || txt(set.Lhs[0]) != l {
+				return nil
+			}
+			app = set.Rhs[0]
+		default:
+			return nil
+		}
+		call, ok := app.(*ast.CallExpr)
+		if !ok || len(call.Args) != 2 || call.Ellipsis.IsValid() || txt(call.Fun) != "append" || txt(call.Args[0]) != l {
+			return nil
+		}
+		if _, isBuiltin := fx.p.info.Uses[call.Fun.(*ast.Ident)].(*types.Builtin); !isBuiltin {
+			return nil
+		}
+		return call.Args[1]
+	}
+	return nil
+}
+
 func (fx *flowX) callHook(n *ast.CallExpr, st *vstate, pend *[]*vtree, want int) ([]string, bool, bool) {
 	x := fx.x
 	if tv, ok := fx.p.info.Types[n.Fun]; ok && tv.IsType() {
@@ -565,6 +902,17 @@ func (fx *flowX) callHook(n *ast.CallExpr, st *vstate, pend *[]*vtree, want int)
 	switch f := ast.Unparen(n.Fun).(type) {
 	case *ast.Ident:
 		switch o := fx.p.info.Uses[f].(type) {
+		case *types.Func:
+			// a function of the four files that returns its []byte argument followed by one byte is `append(arg, byte)`
+			if fd := x.funcs[f.Name]; fd != nil && o.Pkg() == fx.p.pkg && flowFiles[fx.fileOf(fd)] && len(n.Args) == 1 && !n.Ellipsis.IsValid() {
+				if c := fx.appendsOneByte(fd); c != nil {
+					a, ok1 := x.eval(n.Args[0], st, pend)
+					b, ok2 := x.eval(c, st, pend)
+					if ok1 && ok2 && isConstSym(b) {
+						return []string{"append(" + a + "," + b + ")"}, true, true
+					}
+				}
+			}
 		case *types.Builtin:
 			switch o.Name() {
 			case "append", "len", "cap", "make":
@@ -642,8 +990,10 @@ func (fx *flowX) run(key string) *vtree {
 			if f.Embedded() {
 				return vunknown("receiver of %s has an embedded field", key)
 			}
-			roles[f.Name()] = f.Name()
-			st.fields[f.Name()] = "R." + f.Name()
+		}
+		for n, r := range fx.fieldRoles(stt) {
+			roles[n] = r
+			st.fields[r] = "R." + r
 		}
 		x.roles = roles
 		if len(fd.Recv.List) == 1 && len(fd.Recv.List[0].Names) == 1 {
@@ -769,7 +1119,7 @@ func pretf(fields map[string]string, rets ...string) fpat {
 			return false
 		}
 		for i, r := range rets {
-			if !funify(r, t.rets[i], b) {
+			if !funify(r, flowCanon(t.rets[i]), b) {
 				return false
 			}
 		}
@@ -1016,10 +1366,13 @@ func (c *flowC) branch(t *vtree, ty string, clones map[string]bool) string {
 	}
 	in := "as(P0," + ty + ")"
 	autoCell := func(v string) string { return "&" + c.cell + "{f=const(Format:$auto),raw=" + v + ",typ=nil}" }
-	body := func(k, x string, rawOf bool) fpat {
+	body := func(k, x string, rawOf, rawFirst bool) fpat {
 		n := 0
 		val := func(next func(v string) fpat) fpat {
 			n++
+			if rawOf && rawFirst {
+				return next("res#$r0")
+			}
 			if rawOf {
 				r := fmt.Sprintf("r%d", n)
 				return pc(".Raw", []string{x}, r, next("res#$"+r))
@@ -1036,8 +1389,12 @@ func (c *flowC) branch(t *vtree, ty string, clones map[string]bool) string {
 				pc(c.pkg+".NewValue", []string{v, "res#$tf", "res#$tt"}, "nv",
 					pc(".$set", []string{"$row", k, "res#$nv"}, "", pkind("next")))))
 		})
-		return pc(".$get", []string{"$row", k}, "g",
-			pif("true(err#$g)", pif("isnil(res#$g)", auto(), typed), auto()))
+		tests := pif("true(err#$g)", pif("isnil(res#$g)", auto(), typed), auto())
+		if rawOf && rawFirst {
+			// `x.Raw()` asked for once, before the (pure) tests instead of after them: the same calls in the same order
+			tests = pc(".Raw", []string{x}, "r0", tests)
+		}
+		return pc(".$get", []string{"$row", k}, "g", tests)
 	}
 	done := func(b fbind, iter string, rawOf bool) (string, bool) {
 		if c.fmtName[b["auto"]] != "Auto" {
@@ -1050,15 +1407,16 @@ func (c *flowC) branch(t *vtree, ty string, clones map[string]bool) string {
 		return fmt.Sprintf("(.fill %s %s %s %s %v)", on, iter, lstr(b["get"]), lstr(b["set"]), rawOf), true
 	}
 	if ty != "" && ty != "nil" {
-		for _, rawOf := range []bool{false, true} {
-			p := ploop("range("+in+")", body("rk#$n", "rv#$n", rawOf), pret("$row", "nil"))
+		for _, variant := range []struct{ rawOf, rawFirst bool }{{false, false}, {true, false}, {true, true}} {
+			rawOf, rawFirst := variant.rawOf, variant.rawFirst
+			p := ploop("range("+in+")", body("rk#$n", "rv#$n", rawOf, rawFirst), pret("$row", "nil"))
 			if b, ok := fmatch(p, t, nil); ok {
 				if s, ok := done(b, ".range", rawOf); ok {
 					return s
 				}
 			}
 			p = pc(".IterValues", []string{in}, "it", ploop("", pc("()", []string{"res#$it"}, "n",
-				pif("true(res#$n.2)", body("res#$n.0", "res#$n.1", rawOf), pkind("break"))), pret("$row", "nil")))
+				pif("true(res#$n.2)", body("res#$n.0", "res#$n.1", rawOf, rawFirst), pkind("break"))), pret("$row", "nil")))
 			if b, ok := fmatch(p, t, nil); ok {
 				if s, ok := done(b, ".iterValues", rawOf); ok {
 					return s
@@ -1189,6 +1547,16 @@ func (c *flowC) getRowOf(b fbind) (string, bool) {
 	return "(.scannerErrThenParse " + r + " " + e + ")", true
 }
 
+// isFailer: the type is `interface{ Err() error }` or a name for it.
+func (c *flowC) isFailer(ty string) bool {
+	const want = "interface{Err() error}"
+	if ty == want {
+		return true
+	}
+	obj, ok := c.fx.p.pkg.Scope().Lookup(ty).(*types.TypeName)
+	return ok && c.fx.x.typeStr(obj.Type().Underlying()) == want
+}
+
 func (c *flowC) stream(key string) string {
 	t := c.fx.run(key)
 	proc := func(id, row, err string, next fpat) fpat {
@@ -1204,9 +1572,9 @@ func (c *flowC) stream(key string) string {
 				proc("p2", "$r2", "$e2", pif("isnil(res#$p2)", pkind("next"), pret("res#$p2"))))),
 			pkind("break"))), after)
 	}
-	const failer = "interface{Err() error}"
-	handover := pif("is(R.importer,"+failer+")",
-		pc(".Err", []string{"as(R.importer," + failer + ")"}, "f", pif("isnil(res#$f)", pret("nil"),
+	// the importer is asked for `Err() error` through an interface that has this method only, named or not
+	handover := pif("is(R.importer,$failer)",
+		pc(".Err", []string{"as(R.importer,$failer)"}, "f", pif("isnil(res#$f)", pret("nil"),
 			proc("p4", "$r4", "$e4", pret("res#$p4")))),
 		pret("nil"))
 	for _, withAfter := range []bool{true, false} {
@@ -1217,6 +1585,9 @@ func (c *flowC) stream(key string) string {
 		b, ok := fmatch(loop(after), t, nil)
 		if !ok {
 			continue
+		}
+		if withAfter && !c.isFailer(b["failer"]) {
+			break
 		}
 		row := "res#" + b["g"]
 		c2, ok2 := c.procCall(b["r2"], b["e2"], row, "err#"+b["g"])
